@@ -8,12 +8,48 @@ in 64 bits: storage at or beyond `len` is arbitrary in every theorem below.
 -/
 namespace Sux.BV
 
+/-! ## concrete states used by the non-vacuity examples -/
+
+/-- 70 logical bits, garbage in bits 6..63 of word 1, and a third word entirely beyond `len` -/
+def exA : St := { words := #[0xF0F0F0F0F0F0F0F1, 0xFFFFFFFFFFFFFF15, 0xABC], len := 70 }
+/-- same logical contents, other garbage, smaller capacity -/
+def exB : St := { words := #[0xF0F0F0F0F0F0F0F1, 0x1234567800000055], len := 70 }
+
+theorem exA_inv : exA.Inv := by
+  refine ⟨by decide, ?_⟩
+  apply WordsOK_of_getD
+  show ∀ i, i < 3 → exA.words.getD i 0 < 2 ^ 64
+  decide
+
+theorem exB_inv : exB.Inv := by
+  refine ⟨by decide, ?_⟩
+  apply WordsOK_of_getD
+  show ∀ i, i < 2 → exB.words.getD i 0 < 2 ^ 64
+  decide
+
+theorem exAB_abs : exA.abs = exB.abs := by
+  refine abs_congr (s := exA) (t := exB) rfl ?_
+  show ∀ k, k < 70 → exA.bit k = exB.bit k
+  decide
+
+theorem exAB_ne : exA ≠ exB := by decide
+
+/-- shrink, flip, regrow, then iterate the ones -/
+def exOps : List Op := [.pop, .pop, .flip, .push true, .resize 130 false, .ones]
+
+/-! ## property theorems -/
+
 theorem withValue_spec (n : Nat) (v : Bool) :
     (withValue n v).Inv ∧ (withValue n v).abs = List.replicate n v :=
   ⟨withValue_inv n v, withValue_abs n v⟩
 
+example : (withValue 70 true).Inv ∧ (withValue 70 true).abs = List.replicate 70 true :=
+  withValue_spec 70 true
+
 theorem withCapacity_spec (c : Nat) : (withCapacity c).Inv ∧ (withCapacity c).abs = [] :=
   ⟨withCapacity_inv c, withCapacity_abs c⟩
+
+example : (withCapacity 1000).Inv ∧ (withCapacity 1000).abs = [] := withCapacity_spec 1000
 
 /-- every op refines the `Vec<bool>` op; index errors are panics; never `oob` -/
 theorem step_refines (s : St) (h : s.Inv) (op : Op) :
@@ -112,5 +148,234 @@ theorem step_refines (s : St) (h : s.Inv) (op : Op) :
   | countZeros =>
     simp only [specStep, step, countZeros_eq s h, Out.bind_ok, Out.pure_eq]
     exact ⟨_, rfl, h, rfl⟩
+
+-- on a state with garbage beyond `len`: an `ok` case and the panic case
+example : ∃ s', step exA .zeros = .ok (s', .nats (positions exA.abs false)) ∧ s'.Inv ∧
+    s'.abs = exA.abs := step_refines exA exA_inv .zeros
+example : step exA (.set 70 true) = .panic := step_refines exA exA_inv (.set 70 true)
+
+/-- lifted to every finite history -/
+theorem run_refines (s : St) (h : s.Inv) (ops : List Op) :
+    match specRun s.abs ops with
+    | some (l', os) => ∃ s', run s ops = .ok (s', os) ∧ s'.Inv ∧ s'.abs = l'
+    | none => run s ops = .panic := by
+  induction ops generalizing s with
+  | nil =>
+    simp only [specRun, run]
+    exact ⟨s, rfl, h, rfl⟩
+  | cons op ops ih =>
+    have hstep := step_refines s h op
+    simp only [specRun, run]
+    cases hsp : specStep s.abs op with
+    | none =>
+      rw [hsp] at hstep
+      simp only at hstep
+      simp only [hstep, Out.bind_panic]
+    | some p =>
+      obtain ⟨l', o⟩ := p
+      rw [hsp] at hstep
+      simp only at hstep
+      obtain ⟨s', h1, h2, h3⟩ := hstep
+      have ih' := ih s' h2
+      rw [h3] at ih'
+      simp only [h1, Out.bind_ok]
+      cases hr : specRun l' ops with
+      | none =>
+        rw [hr] at ih'
+        simp only at ih'
+        simp only [ih', Out.bind_panic]
+      | some q =>
+        obtain ⟨l'', os⟩ := q
+        rw [hr] at ih'
+        simp only at ih'
+        obtain ⟨s'', g1, g2, g3⟩ := ih'
+        simp only [g1, Out.bind_ok, Out.pure_eq]
+        exact ⟨s'', rfl, g2, g3⟩
+
+example : match specRun exA.abs exOps with
+    | some (l', os) => ∃ s', run exA exOps = .ok (s', os) ∧ s'.Inv ∧ s'.abs = l'
+    | none => run exA exOps = .panic :=
+  run_refines exA exA_inv exOps
+
+theorem step_never_oob (s : St) (h : s.Inv) (op : Op) : step s op ≠ .oob := by
+  have hstep := step_refines s h op
+  cases hsp : specStep s.abs op with
+  | none =>
+    rw [hsp] at hstep
+    simp only at hstep
+    rw [hstep]; intro e; cases e
+  | some p =>
+    obtain ⟨l', o⟩ := p
+    rw [hsp] at hstep
+    simp only at hstep
+    obtain ⟨s', h1, _, _⟩ := hstep
+    rw [h1]; intro e; cases e
+
+example : step exA .ones ≠ .oob := step_never_oob exA exA_inv .ones
+-- the empty vector without storage (defect D5 in the pinned tree is an `oob` exactly here)
+example : step (withCapacity 0) .ones ≠ .oob := step_never_oob _ (withCapacity_spec 0).1 .ones
+
+/-- no history ever performs an out-of-bounds unchecked access -/
+theorem run_never_oob (s : St) (h : s.Inv) (ops : List Op) : run s ops ≠ .oob := by
+  have hrun := run_refines s h ops
+  cases hsp : specRun s.abs ops with
+  | none =>
+    rw [hsp] at hrun
+    simp only at hrun
+    rw [hrun]; intro e; cases e
+  | some p =>
+    obtain ⟨l', o⟩ := p
+    rw [hsp] at hrun
+    simp only at hrun
+    obtain ⟨s', h1, _, _⟩ := hrun
+    rw [h1]; intro e; cases e
+
+example : run exA [.pop, .ones, .get 69] ≠ .oob := run_never_oob exA exA_inv _
+
+/-- C14 write frame: non-growing ops leave every storage bit at or beyond `len` untouched, and the
+shape -/
+theorem step_frame (s : St) (h : s.Inv) (op : Op) (hop : op.nonGrowing = true) (s' : St) (o : Obs)
+    (hs : step s op = .ok (s', o)) :
+    s'.len = s.len ∧ s'.words.size = s.words.size ∧ ∀ k, s.len ≤ k → s'.bit k = s.bit k := by
+  cases op with
+  | push b => simp [Op.nonGrowing] at hop
+  | pop => simp [Op.nonGrowing] at hop
+  | resize n b => simp [Op.nonGrowing] at hop
+  | extend bs => simp [Op.nonGrowing] at hop
+  | set i b =>
+    by_cases hi : i < s.len
+    · simp only [step, set_eq s h i b hi, Out.bind_ok, Out.pure_eq, Out.ok.injEq,
+        Prod.mk.injEq] at hs
+      obtain ⟨rfl, _⟩ := hs
+      refine ⟨setState_len s i b, setState_size s i b, fun k hk => ?_⟩
+      rw [setState_bit s i b (inv_div_lt h hi), if_neg (by omega)]
+    · simp only [step, set_panic s i b (by omega), Out.bind_panic] at hs
+      cases hs
+  | swap i b =>
+    by_cases hi : i < s.len
+    · simp only [step, swap_eq s h i b hi, Out.bind_ok, Out.pure_eq, Out.ok.injEq,
+        Prod.mk.injEq] at hs
+      obtain ⟨rfl, _⟩ := hs
+      refine ⟨setState_len s i b, setState_size s i b, fun k hk => ?_⟩
+      rw [setState_bit s i b (inv_div_lt h hi), if_neg (by omega)]
+    · simp only [step, swap_panic s i b (by omega), Out.bind_panic] at hs
+      cases hs
+  | get i =>
+    by_cases hi : i < s.len
+    · simp only [step, get_eq s h i hi, Out.bind_ok, Out.pure_eq, Out.ok.injEq,
+        Prod.mk.injEq] at hs
+      obtain ⟨rfl, _⟩ := hs
+      exact ⟨rfl, rfl, fun _ _ => rfl⟩
+    · simp only [step, get_panic s i (by omega), Out.bind_panic] at hs
+      cases hs
+  | fill b =>
+    simp only [step, fill_eq s h b, Out.bind_ok, Out.pure_eq, Out.ok.injEq, Prod.mk.injEq] at hs
+    obtain ⟨rfl, _⟩ := hs
+    refine ⟨rfl, prefixMap_size _ _ _, fun k hk => ?_⟩
+    rw [fill_bit s h b k, if_neg (by omega)]
+  | flip =>
+    simp only [step, flip_eq s h, Out.bind_ok, Out.pure_eq, Out.ok.injEq, Prod.mk.injEq] at hs
+    obtain ⟨rfl, _⟩ := hs
+    refine ⟨rfl, prefixMap_size _ _ _, fun k hk => ?_⟩
+    rw [flip_bit s h k, if_neg (by omega)]
+  | reset =>
+    simp only [step, reset, fill_eq s h false, Out.bind_ok, Out.pure_eq, Out.ok.injEq,
+      Prod.mk.injEq] at hs
+    obtain ⟨rfl, _⟩ := hs
+    refine ⟨rfl, prefixMap_size _ _ _, fun k hk => ?_⟩
+    rw [fill_bit s h false k, if_neg (by omega)]
+  | iter =>
+    simp only [step, iterAll_eq s h, Out.bind_ok, Out.pure_eq, Out.ok.injEq, Prod.mk.injEq] at hs
+    obtain ⟨rfl, _⟩ := hs
+    exact ⟨rfl, rfl, fun _ _ => rfl⟩
+  | ones =>
+    simp only [step, iterOnes_eq s h, Out.bind_ok, Out.pure_eq, Out.ok.injEq, Prod.mk.injEq] at hs
+    obtain ⟨rfl, _⟩ := hs
+    exact ⟨rfl, rfl, fun _ _ => rfl⟩
+  | zeros =>
+    simp only [step, iterZeros_eq s h, Out.bind_ok, Out.pure_eq, Out.ok.injEq, Prod.mk.injEq] at hs
+    obtain ⟨rfl, _⟩ := hs
+    exact ⟨rfl, rfl, fun _ _ => rfl⟩
+  | countOnes =>
+    simp only [step, countOnes_eq s h, Out.bind_ok, Out.pure_eq, Out.ok.injEq, Prod.mk.injEq] at hs
+    obtain ⟨rfl, _⟩ := hs
+    exact ⟨rfl, rfl, fun _ _ => rfl⟩
+  | countZeros =>
+    simp only [step, countZeros_eq s h, Out.bind_ok, Out.pure_eq, Out.ok.injEq, Prod.mk.injEq] at hs
+    obtain ⟨rfl, _⟩ := hs
+    exact ⟨rfl, rfl, fun _ _ => rfl⟩
+
+example : ∃ s' o, step exA (.fill true) = .ok (s', o) ∧ s'.len = exA.len ∧
+    s'.words.size = exA.words.size ∧ ∀ k, exA.len ≤ k → s'.bit k = exA.bit k := by
+  obtain ⟨s', h1, _, _⟩ := step_refines exA exA_inv (.fill true)
+  exact ⟨s', _, h1, step_frame exA exA_inv (.fill true) rfl s' _ h1⟩
+
+/-- `PartialEq` compares exactly the logical contents, whatever lies beyond `len` -/
+theorem eq_spec (a b : St) (ha : a.Inv) (hb : b.Inv) : eq a b = .ok (decide (a.abs = b.abs)) :=
+  eq_eq a b ha hb
+
+-- different words, different capacity, equal as bit vectors
+example : eq exA exB = .ok true := by
+  rw [eq_spec exA exB exA_inv exB_inv, decide_eq_true exAB_abs]
+
+/-- C14 reads ignore garbage: two states with the same logical contents (but arbitrary, different
+storage beyond `len`, different capacities) give the same observation on every op -/
+theorem reads_ignore_garbage (s₁ s₂ : St) (h₁ : s₁.Inv) (h₂ : s₂.Inv) (habs : s₁.abs = s₂.abs)
+    (op : Op) :
+    (match step s₁ op, step s₂ op with
+     | .ok (_, o₁), .ok (_, o₂) => o₁ = o₂
+     | .panic, .panic => True
+     | _, _ => False) := by
+  have r1 := step_refines s₁ h₁ op
+  have r2 := step_refines s₂ h₂ op
+  rw [habs] at r1
+  cases hsp : specStep s₂.abs op with
+  | none =>
+    rw [hsp] at r1 r2
+    simp only at r1 r2
+    rw [r1, r2]
+    trivial
+  | some p =>
+    obtain ⟨l', o⟩ := p
+    rw [hsp] at r1 r2
+    simp only at r1 r2
+    obtain ⟨t1, e1, _, _⟩ := r1
+    obtain ⟨t2, e2, _, _⟩ := r2
+    rw [e1, e2]
+
+example (op : Op) : (match step exA op, step exB op with
+     | .ok (_, o₁), .ok (_, o₂) => o₁ = o₂
+     | .panic, .panic => True
+     | _, _ => False) := reads_ignore_garbage exA exB exA_inv exB_inv exAB_abs op
+
+/-- the same for whole histories: the observation sequence depends only on the logical contents -/
+theorem run_ignores_garbage (s₁ s₂ : St) (h₁ : s₁.Inv) (h₂ : s₂.Inv) (habs : s₁.abs = s₂.abs)
+    (ops : List Op) :
+    (match run s₁ ops, run s₂ ops with
+     | .ok (t₁, os₁), .ok (t₂, os₂) => os₁ = os₂ ∧ t₁.abs = t₂.abs
+     | .panic, .panic => True
+     | _, _ => False) := by
+  have r1 := run_refines s₁ h₁ ops
+  have r2 := run_refines s₂ h₂ ops
+  rw [habs] at r1
+  cases hsp : specRun s₂.abs ops with
+  | none =>
+    rw [hsp] at r1 r2
+    simp only at r1 r2
+    rw [r1, r2]
+    trivial
+  | some p =>
+    obtain ⟨l', o⟩ := p
+    rw [hsp] at r1 r2
+    simp only at r1 r2
+    obtain ⟨t1, e1, _, a1⟩ := r1
+    obtain ⟨t2, e2, _, a2⟩ := r2
+    rw [e1, e2]
+    exact ⟨rfl, by rw [a1, a2]⟩
+
+example : (match run exA exOps, run exB exOps with
+     | .ok (t₁, os₁), .ok (t₂, os₂) => os₁ = os₂ ∧ t₁.abs = t₂.abs
+     | .panic, .panic => True
+     | _, _ => False) := run_ignores_garbage exA exB exA_inv exB_inv exAB_abs exOps
 
 end Sux.BV
